@@ -81,3 +81,39 @@ PROPS["C20"] = dict(
 		H("c20::c20_value_kind", "ext", "quick", 120, "variant index < 6, boolean payload, queried kind index < 6", "unwind 4"),
 	],
 )
+
+# ---------------------------------------------------------------------------
+_OPT_P1 = "option record: every numeric field <= 4096, indent Spaces(0..=4)|Tabs(0..=2), both limits over None|Always|Item(<=8)|Width(<=65536)|ItemOrWidth; children: symbolic Size (Expanded | Width(<=4096)), child i pushes (i+1)%3 slots; (k+1)%2 pre-existing slots"
+_OPT_P2 = "option record: every numeric field 0..=3, indent Spaces(0..=4)|Tabs(0..=2), depth 0..=2, own slot at index 0..=1 holding Expanded or Width(any); children: one symbolic ASCII byte and 0..=2 consumed slots each"
+
+PROPS["C13"] = dict(
+	design_ref="DESIGN.md §4 C13",
+	level_text="Bounded model checking of the real layout kernels with a fully symbolic option record: the size decision (pre_compute_array_size / pre_compute_object_size) and the emission (print_array / print_object) are each decided for ALL option records within the field bounds and for ARBITRARY children (a child is abstracted by its symbolic Size / emitted byte / consumed slots), which is the inductive step over the value tree; printed_string_size is decided for every scalar value.",
+	level_note="One container level per query, k <= 3 children (k <= 2 for object emission); the recursion wrappers (Value::pre_compute_size, impl Print for Value allocating `sizes`, Object's entry iterator adaptor) are exercised only on scalar values (C08/C04 harnesses) - their lock-step recursion over heap trees is read-only, outside the claim. Reference layout written from the field documentation of print::Options.",
+	functions=["json_syntax::print::pre_compute_array_size", "json_syntax::print::pre_compute_object_size", "json_syntax::print::print_array",
+	           "json_syntax::print::print_object", "json_syntax::print::printed_string_size", "json_syntax::print::string_literal",
+	           "Display for Indent/IndentBy/Spaces", "Size::add"],
+	bounds="k <= 3 children per level (object emission k <= 2); decision: numeric fields <= 4096, widths <= 4096; emission: numeric fields <= 3, indent unit <= 4 spaces / 2 tabs, depth <= 2, output <= 96 bytes; keys: one arbitrary Unicode scalar value",
+	outside=["fields/widths above the bounds", "more than 3 children per level", "recursion wrappers over heap Value trees (lock-step consumption of `sizes`)", "keys longer than one character (string_literal itself: C08)"],
+	stubs=[],
+	assumptions=["children are abstracted by (Size, slots pushed) for the decision and by (one ASCII byte, slots consumed) for the emission: the kernels are generic over the child type, so this covers any subtree"],
+	harnesses=[
+		H("print::c13_p1_array_k0", "ext", "quick", 300, _OPT_P1, "k=0, unwind 5"),
+		H("print::c13_p1_array_k1", "ext", "quick", 300, _OPT_P1, "k=1, unwind 5"),
+		H("print::c13_p1_array_k2", "ext", "quick", 300, _OPT_P1, "k=2, unwind 5"),
+		H("print::c13_p1_array_k3", "ext", "quick", 600, _OPT_P1, "k=3, unwind 5"),
+		H("print::c13_p1_object_k0", "ext", "quick", 300, _OPT_P1 + "; keys: any char", "k=0, unwind 5"),
+		H("print::c13_p1_object_k1", "ext", "quick", 300, _OPT_P1 + "; keys: any char", "k=1, unwind 5"),
+		H("print::c13_p1_object_k2", "ext", "quick", 600, _OPT_P1 + "; keys: any char", "k=2, unwind 5"),
+		H("print::c13_p1_object_k3", "ext", "quick", 900, _OPT_P1 + "; keys: any char", "k=3, unwind 5"),
+		H("print::c13_p2_array_k0", "ext", "quick", 600, _OPT_P2, "k=0, unwind 6, 24-byte sink"),
+		H("print::c13_p2_array_k1", "ext", "quick", 900, _OPT_P2, "k=1, unwind 6, 48-byte sink"),
+		H("print::c13_p2_array_k2", "ext", "quick", 1200, _OPT_P2, "k=2, unwind 6, 64-byte sink"),
+		H("print::c13_p2_array_k3", "ext", "thorough", 3600, _OPT_P2, "k=3, unwind 6, 80-byte sink"),
+		H("print::c13_p2_object_k0", "ext", "quick", 600, _OPT_P2, "k=0, unwind 6, 24-byte sink"),
+		H("print::c13_p2_object_k1", "ext", "quick", 1200, _OPT_P2 + "; keys: any char", "k=1, unwind 6, 64-byte sink"),
+		H("print::c13_p2_object_k2", "ext", "thorough", 3600, _OPT_P2 + "; keys: any char", "k=2, unwind 6, 96-byte sink"),
+		H("print::c08_string_literal_1char", "ext", "quick", 900, "c: any Unicode scalar value (1,112,064 one-character strings)", "unwind 6"),
+		H("print::c08_string_literal_2chars", "ext", "quick", 900, "c1, c2 from a 12-character escape-relevant alphabet", "unwind 6"),
+	],
+)
